@@ -18,6 +18,10 @@ TRUSTED_COMMON = [
 def lean_step(res, prop_module, thorough=False, extra_allowed=(), extra_targets=()):
     """Build the property module(s) and the driver, audit them.  A failure is a violation with
     no failing input (the caller may add a search)."""
+    # tie T first, always: the generated modules must reflect /repo's CURRENT headers before anything is built
+    if not getattr(res, "_regenerated", False):
+        regenerate(res)
+        res._regenerated = True
     if isinstance(prop_module, (list, tuple)):
         ok = True
         acc = {"obligations": 0, "discharged": 0, "theorems": [], "axioms_used": set(), "cmds": []}
